@@ -202,6 +202,31 @@ def run(rep: Report, tier: str) -> None:
     if not found:
         raise AnalysisError("GainLossSet construction not found in _create_unfiltered_gain_and_loss_set")
 
+    # the window travels unchanged and uncrossed: -f/-t -> Configuration(from_date=, to_date=) -> compute_tax -> ComputedData(from_date, to_date) / InputData
+    re_ = rep.rule("C10.e", "window plumbing: each bound is forwarded under its own name from the command line to Configuration, ComputedData and InputData", floor=5)
+    ct = prog.func("rp2.tax_engine", "compute_tax")
+    rets = [n for n in ast.walk(ct.node) if isinstance(n, ast.Return) and n.value is not None]
+    t = norm.term(rets[0].value, norm.ctx_for(ct, subst_locals=False)) if rets else ("unk", "")
+    kwd = dict(t[2]) if t[0] == "new" and t[1].endswith(":ComputedData") else {}
+    cfg = ("sym", "configuration")
+    for b in ("from_date", "to_date"):
+        got = kwd.get(b)
+        rep.check(got == ("fld", cfg, f"Configuration.__{b}"), re_, ct.module, ct.qualname, f"ComputedData({b}=configuration.{b})", f"compute_tax builds ComputedData with {b}={show(got) if got else None}; expected configuration.{b} (a crossed or duplicated bound changes which rows every report shows)", loc(ct.node))
+    for modname, qual, ctor in (("rp2.rp2_main", "_rp2_main_internal", "Configuration"), ("rp2.ods_parser", "parse_ods", "InputData")):
+        f = prog.func(modname, qual)
+        rep.analysed(f)
+        calls = [n for n in ast.walk(f.node) if isinstance(n, ast.Call) and isinstance(n.func, ast.Name) and n.func.id == ctor]
+        if len(calls) != 1:
+            raise AnalysisError(f"{qual}: expected exactly one {ctor}(...) construction, found {len(calls)}")
+        callee = prog.func({"Configuration": "rp2.configuration", "InputData": "rp2.input_data"}[ctor], f"{ctor}.__init__")
+        params = callee.param_names[1:]
+        bound = {params[i]: a for i, a in enumerate(calls[0].args) if i < len(params)}
+        bound.update({k.arg: k.value for k in calls[0].keywords if k.arg})
+        for b in ("from_date", "to_date"):
+            txt = unparse(bound[b]) if b in bound else None
+            ok = txt is not None and txt.split(".")[-1] == b and txt.split(".")[0] in ("args", "configuration")
+            rep.check(ok, re_, modname, qual, f"{ctor}({b}=<...>.{b})", f"{qual} constructs {ctor} with {b}={txt}; expected the {b} of the command line / configuration under its own name", loc(calls[0]))
+
     # ---------------------------------------------------------------- C10.c
     rc = rep.rule("C10.c", "filters are views: duplicate() = shallow copy + bounds + re-sort; window-dependent containers are rebound per copy; filtered sets come from duplicate()", floor=10)
     dup = prog.func("rp2.abstract_entry_set", "AbstractEntrySet.duplicate")
